@@ -79,6 +79,7 @@ def work(tier, seed):
     items.append({"kind": "pole"})
     items += [{"kind": "narrow_float_sets", "dtype": dt_} for dt_ in ("float32", "float16")]
     items += [{"kind": "near_cases", "which": k} for k in range(3)]
+    items.append({"kind": "inf_sets"})
     for k in range(3):
         items.append({"kind": "alpha_sweep", "which": k, "n": 250 if tier == "quick" else 1500})
     return items
@@ -132,6 +133,8 @@ def run(item, ctx, tier, seed):
         return _run_narrow_float_sets(item, ctx)
     if item["kind"] == "near_cases":
         return _run_near_cases(item, ctx)
+    if item["kind"] == "inf_sets":
+        return _run_inf_sets(ctx)
     ulp_item = item.get("alphabet") == "ulp"
     ms = multisets(b, ULP_ALPHABET) if ulp_item else multisets(b)
     theta_hats = ULP_THETA_HATS if ulp_item else b["theta_hat"]
@@ -332,6 +335,38 @@ def run(item, ctx, tier, seed):
                                 ctx.fail("components-independent", dict(case, component=k, scale=scales[k], alpha=0.1),
                                          observed=flat[k], expected=single)
     ctx.sample({"kind": "stacked", "metric_shapes": b["metric_shapes"], "alpha_shapes": b["alpha_shapes"]})
+    return None
+
+
+def _run_inf_sets(ctx):
+    """Replicates of +-inf (a ratio metric on a sample without the denominator's events) are replicates like any other:
+    they count in 'the fraction of replicates not exceeding the estimate'. A limit is judged wherever the documented
+    formula gives a finite value (interpolation between a finite value and inf is not pinned)."""
+    inf = math.inf
+    sets = [[1.0, 2.0, 3.0, 4.0, 5.0, 6.0, 7.0, 8.0, inf, inf], [-inf, 1.0, 2.0, 3.0, 4.0, 5.0, 6.0, 7.0, 8.0, 9.0, 10.0, 11.0],
+            [-inf, -inf, 0.0, 1.0, 1.0, 2.0, 5.0, 5.0, 7.0, inf], [1.0, 2.0, 3.0, inf], [0.0, 1.0, 2.0, 5.0, NAN, inf, inf, inf, 3.0, 4.0, 4.5, 6.0]]
+    for theta in sets:
+        fin = [t for t in theta if math.isfinite(t)]
+        rng_ = max(fin) - min(fin)
+        for th in (0.5, 2.5, 4.5, 7.5):
+            for method in ("quantile", "bc"):
+                for alpha in (0.05, 0.2, 0.5, 0.9):
+                    case = {"kind": "inf_sets", "theta": [str(t) for t in theta], "theta_hat": th, "method": method, "alpha": alpha}
+                    ctx.state()
+                    ctx.nontrivial()
+                    ok, ci = guarded(ctx, "call", case, _call, theta, th, alpha, method)
+                    ctx.tick()
+                    if not ok:
+                        continue
+                    ci = np.asarray(ci, dtype=float)
+                    want = refs.ref_bootstrap_ci(theta, th, alpha, method)
+                    if want is None:
+                        continue
+                    for side in (0, 1):
+                        if math.isfinite(want[side]) and not abs(ci[side] - want[side]) <= 1e-9 * rng_:
+                            ctx.fail("limits-equal-documented-formula", dict(case, side=["lower", "upper"][side]), observed=float(ci[side]), expected=want[side])
+                            break
+    ctx.sample({"kind": "inf_sets", "sets": len(sets)})
     return None
 
 
